@@ -486,18 +486,25 @@ class Parser:
 
     # -- type system (enough to emit the node kinds; consumed by rule 5.1.1 only) ------------------------------------------
     def description(self):
+        """-> the description text (None when there is none); kept on the node under the private key "_description" """
         if self.t.kind == "STRING":
+            v = self.t.value
             self.p += 1
+            return v
+        return None
 
     def type_system_definition(self):
         first = self.t
-        self.description()
+        desc = self.description()
         kw = self.t.text
         self.p += 1
         if kw == "extend":
             inner = self.type_system_definition_body(self.t, self._eat_name_tok())
             return {"kind": "TypeExtensionDefinition", "loc": self.span(first), "definition": inner}
-        return self.type_system_definition_body(first, kw)
+        node = self.type_system_definition_body(first, kw)
+        if isinstance(node, dict):
+            node["_description"] = desc
+        return node
 
     def _eat_name_tok(self):
         if self.t.kind != "NAME":
@@ -579,10 +586,10 @@ class Parser:
                 self.p += 1
                 while not self.is_punct("}"):
                     v0 = self.t
-                    self.description()
+                    vdesc = self.description()
                     vn = self.name(forbid=("true", "false", "null"))
                     vd = self.directives(True)
-                    vals.append({"kind": "EnumValueDefinition", "loc": self.span(v0), "name": vn, "directives": vd})
+                    vals.append({"kind": "EnumValueDefinition", "loc": self.span(v0), "name": vn, "directives": vd, "_description": vdesc})
                 self.p += 1
             return {"kind": "EnumTypeDefinition", "loc": self.span(first), "name": nm, "directives": dirs,
                     "values": vals}
@@ -628,18 +635,18 @@ class Parser:
 
     def field_definition(self):
         first = self.t
-        self.description()
+        desc = self.description()
         nm = self.name()
         args = self.argument_definitions()
         self.eat(":")
         typ = self.type_ref()
         dirs = self.directives(True)
         return {"kind": "FieldDefinition", "loc": self.span(first), "name": nm, "arguments": args, "type": typ,
-                "directives": dirs}
+                "directives": dirs, "_description": desc}
 
     def input_value_definition(self):
         first = self.t
-        self.description()
+        desc = self.description()
         nm = self.name()
         self.eat(":")
         typ = self.type_ref()
@@ -649,7 +656,7 @@ class Parser:
             default = self.value(True)
         dirs = self.directives(True)
         return {"kind": "InputValueDefinition", "loc": self.span(first), "name": nm, "type": typ,
-                "defaultValue": default, "directives": dirs}
+                "defaultValue": default, "directives": dirs, "_description": desc}
 
 
 def parse_json_ast(data):
